@@ -53,6 +53,21 @@ pub fn exec(store: &mut HashMap<String, MarkerTree>, cmd: &str) -> String {
             store.insert(p[1].to_string(), x);
             "ok".into()
         }
+        // `bulk n salt`: n unrelated markers parsed and conjoined in-process (a resolver that has already walked a
+        // large lock file): node ids and memo tables far beyond what the small scripts reach
+        "bulk" => {
+            let n: usize = p[1].parse().unwrap();
+            let mut live = 0usize;
+            for i in 0..n {
+                let text = match i % 3 {
+                    0 => format!("extra == 'w{}x{i}'", p[2]),
+                    1 => format!("platform_release == 'w{}r{i}' and extra == 'w{}y{}'", p[2], p[2], i % 97),
+                    _ => format!("platform_version != 'v{i}' or platform_release == 'w{}r{}'", p[2], i - 1),
+                };
+                if let Ok(m) = MarkerTree::from_str(&text) { if !m.is_true() && !m.is_false() { live += 1; } }
+            }
+            format!("ok {live}")
+        }
         "obs" => {
             let m = &store[p[1]];
             let dnf = m.to_dnf();
@@ -304,8 +319,11 @@ pub fn run(out: &mut Out, tier: &str, seed: u64, prop: &str) {
                     ("e".into(), format!("python_full_version < '{l1}' or python_full_version >= '{l2}'")),
                     ("f".into(), format!("'{s1}' in platform_machine and python_version ~= '{l1}.1'")),
                 ];
-                let ops: Vec<String> = vec!["and g a b".into(), "or h c d".into(), "not i e".into(), "and j g h".into(), "or k i f".into(), "sx l j 646576".into(), "and m b a".into()];
-                let names = ["a", "b", "c", "d", "e", "f", "g", "h", "i", "j", "k", "l", "m"];
+                // (n.. r: the same right operand under an operand and under its complement, both orders — an operation memo
+                //  that confuses a node with its complement, or two neighbouring nodes, shows here)
+                let ops: Vec<String> = vec!["and g a b".into(), "or h c d".into(), "not i e".into(), "and j g h".into(), "or k i f".into(), "sx l j 646576".into(), "and m b a".into(),
+                    "not n a".into(), "and o n b".into(), "or p2 n b".into(), "not q2 b".into(), "and r a q2".into(), "or s2 a q2".into(), "and t2 c b".into(), "and u2 d b".into()];
+                let names = ["a", "b", "c", "d", "e", "f", "g", "h", "i", "j", "k", "l", "m", "n", "o", "p2", "q2", "r", "s2", "t2", "u2"];
                 // warm-up prefixes
                 let mut warmups: Vec<Vec<String>> = vec![vec![]];
                 // unrelated work
@@ -326,6 +344,8 @@ pub fn run(out: &mut Out, tier: &str, seed: u64, prop: &str) {
                     format!("p w4 {}", hex(&format!("(python_full_version >= '{l1}' and (python_version < '{l2}' or os_name == '{s1}')) or (python_full_version == '{l1}.*' and extra == 'dev')"))),
                     "sx w5 w4 78".into(),                            // [x]
                 ]);
+                // a long unrelated history (tens of thousands of nodes and memo entries) before the queries
+                warmups.push(vec![format!("bulk {} h{round}", [24000usize, 45000, 12000, 90000, 6000, 33000][round % 6])]);
                 // the same work in the opposite order
                 let mut rev = script_for(&q, &[]);
                 rev.reverse();
